@@ -37,11 +37,24 @@
 //   ENTER stage state fields(k=0)       stage 0 placeGlobal,1 legalize,2 placeDetailed (const ColoquinteParameters&)
 //   ENTERE stage state effort           stage 0..2 as above with (int effort), 3 = place(effort); CHILD PROCESS
 //                                       -> "OK | state" | "THROW msg | state" | "ABORT" ...   (state after the call)
+//   PSEQ k effort [state if k=0] n steps ONE object P = struct k built with that effort lives through n steps (stale state kept
+//                                       between calls shows here, not in the one-shot cases); steps:
+//                                         1            P.check()
+//                                         2 fields     the public fields of P are overwritten in place
+//                                         3            Q = copy of P (copy construction); Q.check()
+//                                         4 e2 c       R = struct k built with effort e2 (c=1: R.check() first); R = P (assignment); R.check()
+//                                         5            P is replaced by a copy of itself
+//                                         6 stage      k=0: placeGlobal/legalize/placeDetailed(P) on the circuit (which keeps its state)
+//                                         7 fields     Q = copy of P; the public fields of Q are overwritten; Q.check()
+//                                       -> records joined by " @@ ": every check()/stage call as the ONE-SHOT case it amounts to, with
+//                                          the field values (and circuit state) read from the object AT THAT MOMENT, and what happened:
+//                                          "PCHK k fields => OK|THROW msg"   "ENTER stage state fields => OK|THROW msg | state after"
 #include "vh.hpp"
 #include <cmath>
 #include <sys/wait.h>
 #include <unistd.h>
 #include <stdexcept>
+#include <type_traits>
 #include "coloquinte.hpp"
 using namespace coloquinte;
 
@@ -256,6 +269,40 @@ static std::string circuitCase(const std::string &tag, Toks &t) {
   return "BADCASE";
 }
 
+// ---------------------------------------------------------------- sequences on one parameter object
+static std::string g_seq;    // records so far (kept when a signal ends the case)
+static void seqAdd(const std::string &r) { if (!g_seq.empty()) g_seq += " @@ "; g_seq += r; }
+template <class P> static std::string chk(const P &p) {
+  try { p.check(); return "OK"; } catch (const std::runtime_error &e) { return std::string("THROW ") + e.what(); }
+}
+template <class P, class S, class R> static void pseq(int k, Toks &t, S show, R rd) {
+  int effort = t.ni();
+  P *p = new P(effort);
+  Circuit c(0);
+  if (k == 0) readState(t, c);
+  auto rec = [&](const P &q) { std::ostringstream o; o << "PCHK " << k; show(o, q); std::string head = o.str(); seqAdd(head + " => " + chk(q)); };
+  int n = t.ni();
+  for (int s = 0; s < n; ++s) {
+    int op = t.ni();
+    if (op == 1) rec(*p);
+    else if (op == 2) rd(t, *p);
+    else if (op == 3) { P q(*p); rec(q); }
+    else if (op == 4) { int e2 = t.ni(), first = t.ni(); P r(e2); if (first) rec(r); r = *p; rec(r); }
+    else if (op == 5) { P *q = new P(*p); delete p; p = q; }
+    else if (op == 7) { P q(*p); rd(t, q); rec(q); }
+    else if (op == 6) {
+      int stage = t.ni();
+      if constexpr (std::is_same<P, ColoquinteParameters>::value) {
+        std::ostringstream o; o << "ENTER " << stage << showState(c); show(o, *p);
+        std::string head = o.str();
+        seqAdd(head + " => " + circuitOp(c, [&] { if (stage == 0) c.placeGlobal(*p); else if (stage == 1) c.legalize(*p); else c.placeDetailed(*p); }));
+      }
+    }
+    else throw std::out_of_range("unknown PSEQ step");
+  }
+  delete p;
+}
+
 // ---------------------------------------------------------------- child process per case
 template <class F> static std::string inChild(F f) {
   int po[2], pe[2];
@@ -310,6 +357,21 @@ int main(int argc, char **argv) {
       try {
         if (tag == "CTOR") { int k = t.ni(), e = t.ni(); res = inChild([&] { return ctorCase(k, e); }); }
         else if (tag == "ENTERE") { res = inChild([&] { return circuitCase(tag, t); }); }
+        else if (tag == "PSEQ") {
+          g_seq.clear();
+          int k = t.ni();
+          switch (k) {
+            case 0: pseq<ColoquinteParameters>(k, t, showAll, readAll); break;
+            case 1: pseq<GlobalPlacerParameters>(k, t, showGlobal, readGlobal); break;
+            case 2: pseq<RoughLegalizationParameters>(k, t, showRough, readRough); break;
+            case 3: pseq<ContinuousModelParameters>(k, t, showCont, readCont); break;
+            case 4: pseq<PenaltyParameters>(k, t, showPenalty, readPenalty); break;
+            case 5: pseq<LegalizationParameters>(k, t, showLegal, readLegal); break;
+            case 6: pseq<DetailedPlacerParameters>(k, t, showDet, readDet); break;
+            default: seqAdd("BADCASE");
+          }
+          res = g_seq;
+        }
         else if (tag == "PCHK") {
           int k = t.ni();
           switch (k) {
@@ -326,8 +388,10 @@ int main(int argc, char **argv) {
         else res = circuitCase(tag, t);
       } catch (const std::out_of_range &e) { res = std::string("BADCASE ") + e.what(); }
         catch (const std::exception &e) { res = std::string("THROWOTHER ") + e.what(); }
+      if (tag == "PSEQ" && res != g_seq) res = g_seq + (g_seq.empty() ? "" : " @@ ") + res;   // exception outside a recorded call
     } else {
       res = vh_signame();
+      if (tag == "PSEQ") res = g_seq + (g_seq.empty() ? "" : " @@ ") + res;
     }
     printf("%s\n", res.c_str());
     fflush(stdout);
